@@ -79,6 +79,11 @@ theorem handle_request_step_order :
     Gen.Site.handleRequest.filter (fun x => x ∈ ["from_pdu", "put_delivery_segmented", "get_delivery"]) = ["from_pdu", "put_delivery_segmented", "get_delivery"] := by
   decide
 
+/-- TIE TO THE SOURCE (regenerated on every run, Gen/Site.lean): `_handle_request` awaits the correlator directly: no time-out, task or shield is put around reassembly or receipt correlation (a cancelled `put_delivery_segmented` would lose the message it had just completed) -/
+theorem request_handler_awaits_directly :
+    Gen.Site.handleRequest.filter (fun x => x ∈ ["_socket_operation", "wait_for", "create_task", "shield"]) = [] := by
+  decide
+
 end SmppVerif.Props.C09
 
 #print axioms SmppVerif.Props.C09.reassemble_any_order
@@ -86,3 +91,4 @@ end SmppVerif.Props.C09
 #print axioms SmppVerif.Props.C09.no_cross_interference
 #print axioms SmppVerif.Props.C09.numeric_order
 #print axioms SmppVerif.Props.C09.handle_request_step_order
+#print axioms SmppVerif.Props.C09.request_handler_awaits_directly
